@@ -2,6 +2,7 @@ mod abi;
 mod breadcrumb;
 mod c10;
 mod c12;
+mod c13;
 mod c14;
 mod casex;
 mod c15;
@@ -143,12 +144,38 @@ fn replay_file(prop: &str, tier: &str, c: &Candidate) -> String {
 /// Replay a file in a fresh process; returns the signatures it reproduced.
 fn replay_in_child(path: &str) -> Result<Vec<String>, String> {
     let exe = std::env::current_exe().unwrap();
-    let out = Command::new(exe).args(["replay-inner", path]).stderr(Stdio::null()).output().map_err(|e| e.to_string())?;
-    let text = String::from_utf8_lossy(&out.stdout).to_string();
+    let out_path = format!("{path}.out");
+    let out_file = std::fs::File::create(&out_path).map_err(|e| e.to_string())?;
+    let mut child = Command::new(exe)
+        .args(["replay-inner", path])
+        .stdin(Stdio::null())
+        .stdout(out_file)
+        .stderr(Stdio::null())
+        .spawn()
+        .map_err(|e| e.to_string())?;
+    let deadline = std::time::Instant::now() + std::time::Duration::from_secs(120);
+    let status = loop {
+        match child.try_wait() {
+            Ok(Some(st)) => break Some(st),
+            Ok(None) if std::time::Instant::now() > deadline => {
+                let _ = child.kill();
+                let _ = child.wait();
+                break None;
+            }
+            Ok(None) => std::thread::sleep(std::time::Duration::from_millis(5)),
+            Err(e) => return Err(e.to_string()),
+        }
+    };
+    let text = std::fs::read_to_string(&out_path).unwrap_or_default();
+    let _ = std::fs::remove_file(&out_path);
     let mut sigs: Vec<String> = text.lines().filter_map(|l| l.strip_prefix("REPRODUCED ")).map(|s| s.to_string()).collect();
-    if !out.status.success() && out.status.code().is_none() {
-        use std::os::unix::process::ExitStatusExt;
-        sigs.push(format!("crash/signal-{}", out.status.signal().unwrap_or(0)));
+    match status {
+        None => sigs.push("hang/replay-timeout".to_string()),
+        Some(st) if !st.success() && st.code().is_none() => {
+            use std::os::unix::process::ExitStatusExt;
+            sigs.push(format!("crash/signal-{}", st.signal().unwrap_or(0)));
+        }
+        _ => {}
     }
     Ok(sigs)
 }
@@ -229,6 +256,7 @@ fn check(prop: &str, tier: &str) -> i32 {
             let out = format!("{scratch}/{run_id}-h{hi}-s{s}.json");
             let child = Command::new(&exe)
                 .args(["worker", prop, tier, &hi.to_string(), &s.to_string(), &n.to_string(), &out])
+                .stdin(Stdio::null())
                 .stdout(Stdio::null())
                 .stderr(Stdio::piped())
                 .spawn()
@@ -241,7 +269,22 @@ fn check(prop: &str, tier: &str) -> i32 {
         let mut h_pruned = 0u64;
         let mut h_maxd = 0u64;
         let mut per_depth: Vec<u64> = Vec::new();
-        for (out, child) in children {
+        // Watchdog: a worker that exceeds the deadline is killed (machinery failure).
+        let deadline = std::time::Instant::now() + std::time::Duration::from_secs(if tier == "quick" { 240 } else { 4 * 3600 });
+        for (out, mut child) in children {
+            loop {
+                match child.try_wait() {
+                    Ok(Some(_)) => break,
+                    Ok(None) if std::time::Instant::now() > deadline => {
+                        let _ = child.kill();
+                        let crumb = breadcrumb::read(&format!("{out}.crumb"));
+                        machinery.push(format!("worker for harness {} exceeded the time limit and was killed (last history: {crumb:?})", h.name));
+                        break;
+                    }
+                    Ok(None) => std::thread::sleep(std::time::Duration::from_millis(5)),
+                    Err(_) => break,
+                }
+            }
             let res = child.wait_with_output().expect("waiting for worker");
             if !res.status.success() {
                 use std::os::unix::process::ExitStatusExt;
